@@ -1,6 +1,7 @@
 package main
 
 import (
+	"github.com/multiformats/go-multicodec"
 	"bufio"
 	"bytes"
 	"io"
@@ -60,6 +61,31 @@ func bigBucketCases(o *Out) {
 		}
 		o.Line(fmt.Sprintf("idxbig codec=%s n=%d", codec, n), res)
 		o.Count("bigbucket/" + codec)
+		// the same records through the in-memory insertion index and Flatten (what Finalize does): more
+		// records than any batch size a flattening loop might use; the flattened index is the same index
+		res = "r=err"
+		ins := index.NewInsertionIndex()
+		if err := ins.Load(recs); err == nil {
+			mc := multicodec.CarIndexSorted
+			if codec == "mh" {
+				mc = multicodec.CarMultihashIndexSorted
+			}
+			if flat, err := ins.Flatten(mc); err == nil {
+				var buf bytes.Buffer
+				nw, err := index.WriteTo(flat, &buf)
+				if err == nil {
+					res = fmt.Sprintf("r=ok n=%d len=%d ", nw, buf.Len())
+					rd := bytes.NewReader(buf.Bytes())
+					if back, err := index.ReadFrom(rd); err != nil {
+						res += "rt=err"
+					} else {
+						res += fmt.Sprintf("rt=ok rest=%d get=%s", rd.Len(), queryIndex(back, qs))
+					}
+				}
+			}
+		}
+		o.Line(fmt.Sprintf("idxbig codec=%s n=%d via=flatten", codec, n), res)
+		o.Count("bigbucket-flatten/" + codec)
 	}
 }
 
